@@ -52,6 +52,11 @@ CLAIMED = {
          "For every generated message program the check enumerates EVERY byte offset at which the destination can start failing (complete for that program) and injects producer failures; the programs themselves are sampled by rapid, so the guarantee is exhaustive per shape and statistical across shapes.",
          "Sinks obey the io.Writer contract and keep failing once they failed; shapes limited to 0..3 parts, 0..2 embeds, 0..2 attachments with contents <= 90 bytes.",
          "DESIGN.md section 3, C12"),
+ "C13": ("exploration",
+         "randomised concurrent stress under the Go race detector: rapid draws goroutine counts, call mixes (Send on the shared connection, batched Send, DialAndSend on the same Client), server latency jitter plans and GOMAXPROCS; oracle: per-connection transaction automaton of the reference server, token pairing of envelope and content, exactly-once commit, and absence of race reports",
+         "Exploration only: the harness does not control the Go scheduler; schedules are varied indirectly and the race detector sees only the executions that happen. Removing the lock that serialises Send is caught reliably; a window of a few instructions may be missed.",
+         "-race build; in-memory transport; every race report counts as a violation (the detector has no false positives).",
+         "DESIGN.md sections 3 (C13) and 6"),
  "C14": ("exploration",
          "differential testing of the client's SASL exchanges against independent reference verifiers written from the RFCs (PLAIN, LOGIN, CRAM-MD5, XOAUTH2, SCRAM-SHA-1/-256(-PLUS) with own PBKDF2 and the server's own channel-binding data), over rapid-generated credentials, wrong-credential twins, salts, iteration counts, nonce suffixes, TLS 1.2/1.3 and retries",
          "Generated-input search with reference implementations as oracle (validated on the RFC 5802, 7677 and 6070 test vectors); sampled.",
